@@ -157,6 +157,10 @@ pub fn std_resources() -> Vec<Resource> {
         // and under a media kind: both are loaded and served as they are
         Resource { content: "//4A".to_string(), ..resource("bin", &[], ResourceType::Mime(MimeType::Unknown), "", &[], 0) },
         Resource { content: "AAH/gA==".to_string(), ..resource("vid", &[], ResourceType::Mime(MimeType::VideoMp4), "", &[], 0) },
+        // content that is not base64 under a media kind: refused, whatever the kind (the name stays
+        // free for the well-formed resource that follows)
+        Resource { content: "%%%%".to_string(), ..resource("corrupt", &["corrupt-alias"], ResourceType::Mime(MimeType::ImageGif), "", &[], 0) },
+        resource("corrupt", &[], ResourceType::Mime(MimeType::TextPlain), "ok", &[], 0),
         // identifier collisions (order matters): `bad` is rejected because its second alias is
         // taken; it must leave no trace, so `s1x` (its first alias) can be loaded afterwards as a
         // resource of its own; `bad2` is rejected the same way, then a resource really named
@@ -175,7 +179,7 @@ pub fn std_resources() -> Vec<Resource> {
 
 /// The entries of `std_resources` that the store must reject (an alias or the name is taken).
 pub fn deliberately_rejected(r: &Resource) -> bool {
-    r.name == "a-alias" || (r.name.starts_with("bad") && r.aliases.iter().any(|a| a == "a-alias" || a == "b"))
+    r.name == "a-alias" || (r.name.starts_with("bad") && r.aliases.iter().any(|a| a == "a-alias" || a == "b")) || r.content == "%%%%"
 }
 
 pub fn data_url(mime: &str, content: &str) -> String {
